@@ -79,8 +79,69 @@ FLAVORS = {
 CDEFS = ["-std=gnu99", "-D_GNU_SOURCE", "-D" + GUARD, "-DHAVE_CONFIG_H", "-w"]
 
 
+GEN = os.path.join(BUILD, "gen")
+
+
 def cinc():
-    return ["-I" + REPO, "-I" + os.path.join(REPO, "htp"), "-I" + HARNESS]
+    return ["-I" + REPO, "-I" + os.path.join(REPO, "htp"), "-I" + HARNESS, "-I" + os.path.join(HARNESS, "drv"),
+            "-I" + os.path.join(HARNESS, "consts"), "-I" + GEN]
+
+
+def write_if_changed(path, txt):
+    if os.path.exists(path) and open(path).read() == txt:
+        return False
+    os.makedirs(os.path.dirname(path), exist_ok=True)
+    with open(path + ".tmp%d" % os.getpid(), "w") as f:
+        f.write(txt)
+    os.replace(path + ".tmp%d" % os.getpid(), path)
+    return True
+
+
+def assemble():
+    """Generate the registries from the directory listings: _CoqProject, Extract.v, drv_all.h,
+    consts_all.h, model_driver.ml. Fragments are independent files so suites can be added without
+    touching shared files."""
+    with Lock("assemble"):
+        # _CoqProject
+        vs = []
+        for d in ("Gen", "Model", "Spec", "Proof", "Props"):
+            vs += sorted(os.path.relpath(x, COQ) for x in glob.glob(os.path.join(COQ, d, "*.v")))
+        if "Gen/Generated.v" not in vs:
+            vs.insert(0, "Gen/Generated.v")
+        proj = "-Q . Htp\n" + "\n".join(vs) + "\nExtract.v\n"
+        if write_if_changed(os.path.join(COQ, "_CoqProject"), proj):
+            mk = os.path.join(COQ, "Makefile")
+            if os.path.exists(mk):
+                os.remove(mk)
+        # Extract.v
+        reqs, names = [], []
+        for fpath in sorted(glob.glob(os.path.join(COQ, "Extract.d", "*.txt"))):
+            for l in open(fpath):
+                l = l.strip()
+                if not l or l.startswith("#"):
+                    continue
+                if l.startswith("Require "):
+                    reqs.append(l.split(None, 1)[1])
+                else:
+                    names += l.split()
+        ex = ("(* GENERATED from coq/Extract.d/*.txt. Extraction of the executable model for the correspondence drivers.\n"
+              "   ExtrOcamlBasic only: bool/option/unit/list/prod/sumbool/sumor map to OCaml's own types;\n"
+              "   no Extract Constant; N, Z, positive, nat stay Coq inductives. *)\n"
+              "Require Import %s.\nRequire Import ExtrOcamlBasic.\nExtraction Language OCaml.\nExtraction \"model.ml\"\n  %s.\n"
+              % (" ".join(reqs), "\n  ".join(names)))
+        write_if_changed(os.path.join(COQ, "Extract.v"), ex)
+        # C driver registry
+        drv = sorted(os.path.basename(x)[:-2] for x in glob.glob(os.path.join(HARNESS, "drv", "drv_*.h")))
+        txt = "/* GENERATED */\n" + "".join('#include "%s.h"\n' % d for d in drv)
+        txt += "static int drv_dispatch(char **f, int nf) {\n" + "".join("    if (%s(f, nf)) return 1;\n" % d for d in drv) + "    return 0;\n}\n"
+        write_if_changed(os.path.join(GEN, "drv_all.h"), txt)
+        cs = sorted(os.path.basename(x)[:-2] for x in glob.glob(os.path.join(HARNESS, "consts", "consts_*.h")))
+        txt = "/* GENERATED */\n" + "".join('#include "%s.h"\n' % d for d in cs)
+        txt += "static void consts_all(void) {\n" + "".join("    %s();\n" % d for d in cs) + "}\n"
+        write_if_changed(os.path.join(GEN, "consts_all.h"), txt)
+        # model driver
+        md = "".join(open(x).read() + "\n" for x in sorted(glob.glob(os.path.join(HARNESS, "md", "md_*.ml"))))
+        write_if_changed(os.path.join(GEN, "model_driver.ml"), md)
 
 
 def build_objs(ctx, flavor="plain", exclude=(), extra_flags=()):
@@ -121,6 +182,7 @@ def build_exe(ctx, name, main_src, flavor="plain", exclude=(), extra_flags=(), l
 
 def regen_constants(ctx):
     """Compile and RUN the constants dumper against /repo; rewrite Gen/Generated.v iff it changed."""
+    assemble()
     exe = build_exe(ctx, "dump_consts", os.path.join(HARNESS, "dump_consts.c"), "plain", exclude=("htp_utf8_decoder.c",))
     r = run([exe], timeout=60, stderr=subprocess.PIPE)
     if r.returncode != 0 or "Definition" not in r.stdout:
@@ -138,6 +200,7 @@ def regen_constants(ctx):
 
 def coq_make(ctx, targets, timeout=1500, force=()):
     """Full .vo build of the given targets (never -vos). Returns (ok, output)."""
+    assemble()
     with Lock():
         if not os.path.exists(os.path.join(COQ, "Makefile")):
             r = run(["coq_makefile", "-f", "_CoqProject", "-o", "Makefile"], cwd=COQ)
@@ -197,7 +260,8 @@ def scan_forbidden():
                     l2 = re.sub(r"\(\*.*?\*\)", "", l)
                     if FORBIDDEN.search(l2):
                         bad.append("%s:%d: %s" % (os.path.relpath(p, VERIF), n, l.strip()))
-    for l in open(os.path.join(COQ, "_CoqProject")):
+    cp = os.path.join(COQ, "_CoqProject")
+    for l in (open(cp) if os.path.exists(cp) else []):
         if FORBIDDEN.search(l):
             bad.append("_CoqProject: " + l.strip())
     return bad
@@ -206,7 +270,8 @@ def scan_forbidden():
 def build_model_driver(ctx):
     """ocamlopt the extracted model + driver (rebuilt when model.ml or the driver changed)."""
     exe = os.path.join(BUILD, "model_driver")
-    srcs = [os.path.join(COQ, "model.mli"), os.path.join(COQ, "model.ml"), os.path.join(HARNESS, "model_driver.ml")]
+    assemble()
+    srcs = [os.path.join(COQ, "model.mli"), os.path.join(COQ, "model.ml"), os.path.join(GEN, "model_driver.ml")]
     with Lock():
         for s in srcs:
             if not os.path.exists(s):
